@@ -65,9 +65,20 @@ package document
 //@         && len(sod.LdsSecurityObject.DataGroupHashValues[i].DataGroupHashValue) > 0
 //@         && (forall j :: 0 <= j && j < i ==> sod.LdsSecurityObject.DataGroupHashValues[j].DataGroupNumber != n)) }
 
+// sodHashOf(lso, n): ghost name of the value (SOD).DgHash returns for group n of the hash list object lso - by its verified
+// postcondition the hash value of the first list entry with that number
+//@ uf sodHashOf(ref, int) seq
+// sodEntry(sod, n, h): h is the hash value of the first entry of the signed hash list whose number is n
+//@ pred sodEntry(sod SOD, n int, h seq) { sod.LdsSecurityObject != nil &&
+//@     (exists i :: 0 <= i && i < len(sod.LdsSecurityObject.DataGroupHashValues)
+//@         && sod.LdsSecurityObject.DataGroupHashValues[i].DataGroupNumber == n
+//@         && sod.LdsSecurityObject.DataGroupHashValues[i].DataGroupHashValue === h
+//@         && (forall j :: 0 <= j && j < i ==> sod.LdsSecurityObject.DataGroupHashValues[j].DataGroupNumber != n)) }
 //@ func (sod SOD) DgHash
 //@   props C02 C01
 //@   ensures "found-iff": len(result) > 0 <==> hasHash(sod, dgNumber)
+//@   ensures "value-of-the-first-entry-for-that-number": len(result) > 0 ==> sodEntry(sod, dgNumber, result)
+//@   defines "signed-hash-name": len(result) > 0 ==> result === sodHashOf(ref(sod.LdsSecurityObject), dgNumber)
 //@   ensures fresh(result)
 //@   loop 1 invariant sod.LdsSecurityObject != nil
 //@   loop 1 invariant forall j :: 0 <= j && j <= rangeindex ==> sod.LdsSecurityObject.DataGroupHashValues[j].DataGroupNumber != dgNumber
@@ -287,4 +298,77 @@ package document
 //@   ensures "raw-bytes-are-a-private-copy": result0 != nil ==> result0.RawData === data && fresh(result0.RawData) && fresh(result0)
 //@   ensures "outer-tag-is-the-data-group-tag": result0 != nil ==> topCount(data) >= 1 && firstTag(data) == 107
 //@   ensures "object-or-error": len(data) >= 1 ==> (result0 != nil) == (result1 == nil)
+//@   safety all
+
+
+// ---------------------------------------------------------------- C01: every data group present hashes to its signed entry
+// dgRaw(doc, d): the raw bytes of data group d held by the document (empty when absent); the hashable groups are
+// 1, 2, 7, 11..16 (dgHashableIds, fixed by the package invariant below).
+//@ invariant len(dgHashableIds) == 9 && dgHashableIds[0] == 1 && dgHashableIds[1] == 2 && dgHashableIds[2] == 7 && dgHashableIds[3] == 11 && dgHashableIds[4] == 12
+//@        && dgHashableIds[5] == 13 && dgHashableIds[6] == 14 && dgHashableIds[7] == 15 && dgHashableIds[8] == 16
+//@ pred dgHashable(d int) { d == 1 || d == 2 || d == 7 || (11 <= d && d <= 16) }
+//@ spec func dgRawV(doc Document, d int) seq {
+//@     d == 1 ? (doc.Mf.Lds1.Dg1 != nil ? doc.Mf.Lds1.Dg1.RawData : seq()) : (d == 2 ? (doc.Mf.Lds1.Dg2 != nil ? doc.Mf.Lds1.Dg2.RawData : seq()) :
+//@    (d == 7 ? (doc.Mf.Lds1.Dg7 != nil ? doc.Mf.Lds1.Dg7.RawData : seq()) : (d == 11 ? (doc.Mf.Lds1.Dg11 != nil ? doc.Mf.Lds1.Dg11.RawData : seq()) :
+//@    (d == 12 ? (doc.Mf.Lds1.Dg12 != nil ? doc.Mf.Lds1.Dg12.RawData : seq()) : (d == 13 ? (doc.Mf.Lds1.Dg13 != nil ? doc.Mf.Lds1.Dg13.RawData : seq()) :
+//@    (d == 14 ? (doc.Mf.Lds1.Dg14 != nil ? doc.Mf.Lds1.Dg14.RawData : seq()) : (d == 15 ? (doc.Mf.Lds1.Dg15 != nil ? doc.Mf.Lds1.Dg15.RawData : seq()) :
+//@    (d == 16 ? (doc.Mf.Lds1.Dg16 != nil ? doc.Mf.Lds1.Dg16.RawData : seq()) : seq())))))))) }
+//@ spec func dgRaw(doc *Document, d int) seq { dgRawV(*doc, d) }
+//@ pred dgPresentV(doc Document, d int) { dgHashable(d) && len(dgRawV(doc, d)) >= 1 }
+//@ pred dgPresent(doc *Document, d int) { dgPresentV(*doc, d) }
+//@ spec func sodAlg(doc *Document) int { hashAlgOfOid(doc.Mf.Lds1.Sod.LdsSecurityObject.HashAlgorithm.Algorithm) }
+
+//@ pred dgHashIs(doc *Document, d int, h seq) { h === hashF(sodAlg(doc), dgRaw(doc, d)) }
+// digestOf(a, r): ghost name for "the digest DgHash computed, under the hash algorithm whose identifier is stored at a, over the byte string whose backing array is r"
+// (introduced by a ghost definition on DgHash next to its verified postcondition h === H(alg, raw bytes); it lets the callers
+// speak about the table of digests without re-materialising the hashed byte strings). A shallow copy of the document shares r.
+//@ uf digestOf(int, ref) seq
+//@ spec func dgRawRefV(doc Document, d int) int {
+//@     d == 1 ? (doc.Mf.Lds1.Dg1 != nil ? ref(doc.Mf.Lds1.Dg1.RawData) : 0) : (d == 2 ? (doc.Mf.Lds1.Dg2 != nil ? ref(doc.Mf.Lds1.Dg2.RawData) : 0) :
+//@    (d == 7 ? (doc.Mf.Lds1.Dg7 != nil ? ref(doc.Mf.Lds1.Dg7.RawData) : 0) : (d == 11 ? (doc.Mf.Lds1.Dg11 != nil ? ref(doc.Mf.Lds1.Dg11.RawData) : 0) :
+//@    (d == 12 ? (doc.Mf.Lds1.Dg12 != nil ? ref(doc.Mf.Lds1.Dg12.RawData) : 0) : (d == 13 ? (doc.Mf.Lds1.Dg13 != nil ? ref(doc.Mf.Lds1.Dg13.RawData) : 0) :
+//@    (d == 14 ? (doc.Mf.Lds1.Dg14 != nil ? ref(doc.Mf.Lds1.Dg14.RawData) : 0) : (d == 15 ? (doc.Mf.Lds1.Dg15 != nil ? ref(doc.Mf.Lds1.Dg15.RawData) : 0) :
+//@    (d == 16 ? (doc.Mf.Lds1.Dg16 != nil ? ref(doc.Mf.Lds1.Dg16.RawData) : 0) : 0)))))))) }
+//@ spec func dgRawRef(doc *Document, d int) int { dgRawRefV(*doc, d) }
+//@ spec func dgDigestV(doc Document, d int) seq { digestOf(ref(doc.Mf.Lds1.Sod.LdsSecurityObject.HashAlgorithm.Algorithm), dgRawRefV(doc, d)) }
+//@ pred dgDigestIs(doc *Document, d int, h seq) { h === dgDigestV(*doc, d) }
+//@ func (doc *Document) DgHash
+//@   props C01 C12
+//@   requires doc != nil && (doc.Mf.Lds1.Sod != nil ==> doc.Mf.Lds1.Sod.LdsSecurityObject != nil)
+//@   ensures "unsupported-group-is-an-error": !dgHashable(dgNumber) ==> result1 != nil
+//@   ensures "absent-group-has-no-hash": result1 == nil && !dgPresent(doc, dgNumber) ==> len(result0) == 0
+//@   ensures "present-group-needs-the-sod": result1 == nil && dgPresent(doc, dgNumber) ==> doc.Mf.Lds1.Sod != nil && len(result0) >= 1
+//@   ensures "hash-of-the-raw-bytes-under-the-sod-algorithm": result1 == nil ==> (dgNumber == 1 && dgPresent(doc, 1) ==> dgHashIs(doc, 1, result0)) && (dgNumber == 2 && dgPresent(doc, 2) ==> dgHashIs(doc, 2, result0)) && (dgNumber == 7 && dgPresent(doc, 7) ==> dgHashIs(doc, 7, result0)) && (dgNumber == 11 && dgPresent(doc, 11) ==> dgHashIs(doc, 11, result0)) && (dgNumber == 12 && dgPresent(doc, 12) ==> dgHashIs(doc, 12, result0)) && (dgNumber == 13 && dgPresent(doc, 13) ==> dgHashIs(doc, 13, result0)) && (dgNumber == 14 && dgPresent(doc, 14) ==> dgHashIs(doc, 14, result0)) && (dgNumber == 15 && dgPresent(doc, 15) ==> dgHashIs(doc, 15, result0)) && (dgNumber == 16 && dgPresent(doc, 16) ==> dgHashIs(doc, 16, result0))
+//@   ensures result1 != nil ==> result0 == nil
+//@   defines "digest-name": result1 == nil && len(result0) >= 1 ==> dgDigestIs(doc, dgNumber, result0)
+//@   assigns nothing
+//@   safety all
+
+// the computed hash table: exactly the present hashable groups, each with H(raw bytes)
+//@ pred hashedOK(doc *Document, m map[int][]byte, d int) { mapdom(m, d) == dgPresent(doc, d) && (mapdom(m, d) ==> allocated(mapval(m, d)) && dgDigestIs(doc, d, mapval(m, d))) }
+//@ pred allHashedOK(doc *Document, m map[int][]byte) { hashedOK(doc, m, 1) && hashedOK(doc, m, 2) && hashedOK(doc, m, 7) && hashedOK(doc, m, 11) && hashedOK(doc, m, 12)
+//@        && hashedOK(doc, m, 13) && hashedOK(doc, m, 14) && hashedOK(doc, m, 15) && hashedOK(doc, m, 16) }
+//@ func (doc *Document) DgHashes
+//@   props C01 C12
+//@   requires doc != nil && (doc.Mf.Lds1.Sod != nil ==> doc.Mf.Lds1.Sod.LdsSecurityObject != nil)
+//@   ensures "only-hashable-groups": result1 == nil ==> result0 != nil && (forall d :: mapdom(result0, d) ==> dgHashable(d) && allocated(mapval(result0, d)))
+//@   ensures "every-present-group-with-its-hash": result1 == nil ==> allHashedOK(doc, result0)
+//@   loop 1 invariant doc != nil && dgHashes != nil && (forall d :: mapdom(dgHashes, d) ==> dgHashable(d))
+//@   loop 1 invariant "stored-digests-are-allocated": forall d :: mapdom(dgHashes, d) ==> allocated(mapval(dgHashes, d))
+//@   loop 1 invariant "processed-groups-are-in-the-table": forall j :: 0 <= j && j <= rangeindex ==>
+//@        (mapdom(dgHashes, dgHashableIds[j]) == dgPresent(doc, dgHashableIds[j]))
+//@   loop 1 invariant "unprocessed-groups-are-not": forall j :: rangeindex < j && j < 9 ==> !mapdom(dgHashes, dgHashableIds[j])
+//@   loop 1 invariant "value-1": mapdom(dgHashes, 1) ==> allocated(mapval(dgHashes, 1)) && dgDigestIs(doc, 1, mapval(dgHashes, 1))
+//@   loop 1 invariant "value-2": mapdom(dgHashes, 2) ==> allocated(mapval(dgHashes, 2)) && dgDigestIs(doc, 2, mapval(dgHashes, 2))
+//@   loop 1 invariant "value-7": mapdom(dgHashes, 7) ==> allocated(mapval(dgHashes, 7)) && dgDigestIs(doc, 7, mapval(dgHashes, 7))
+//@   loop 1 invariant "value-11": mapdom(dgHashes, 11) ==> allocated(mapval(dgHashes, 11)) && dgDigestIs(doc, 11, mapval(dgHashes, 11))
+//@   loop 1 invariant "value-12": mapdom(dgHashes, 12) ==> allocated(mapval(dgHashes, 12)) && dgDigestIs(doc, 12, mapval(dgHashes, 12))
+//@   loop 1 invariant "value-13": mapdom(dgHashes, 13) ==> allocated(mapval(dgHashes, 13)) && dgDigestIs(doc, 13, mapval(dgHashes, 13))
+//@   loop 1 invariant "value-14": mapdom(dgHashes, 14) ==> allocated(mapval(dgHashes, 14)) && dgDigestIs(doc, 14, mapval(dgHashes, 14))
+//@   loop 1 invariant "value-15": mapdom(dgHashes, 15) ==> allocated(mapval(dgHashes, 15)) && dgDigestIs(doc, 15, mapval(dgHashes, 15))
+//@   loop 1 invariant "value-16": mapdom(dgHashes, 16) ==> allocated(mapval(dgHashes, 16)) && dgDigestIs(doc, 16, mapval(dgHashes, 16))
+//@   loop 1 invariant "ids-increasing": forall a, b :: 0 <= a && a < b && b < 9 ==> dgHashableIds[a] < dgHashableIds[b]
+//@   ensures fresh(result0)
+//@   assigns nothing
+//@   trustedframe
 //@   safety all
